@@ -32,7 +32,7 @@ OPS = ["add_mark", "add_mark", "remove_mark", "remove_mark", "add_node_mark", "r
 
 
 def cases(tier):
-    return 1600 if tier == "quick" else 40000
+    return 10000 if tier == "quick" else 160000
 
 
 def floors(tier):
